@@ -53,8 +53,10 @@ inductive Underlying where
 /-- what the translated functions ask go/types about a `types.Type`: `basic` = `Underlying().(*types.Basic)`
 (`none`: the assertion fails) with its `Kind()`; `typesImplements pkg name` = `types.Implements(T, I)` and
 `gcTypeImplements pkg name` = `gencommon.TypeImplements(T, I)` for the interface `I` that
-`gencommon.FindIFaceDef(pkg, name)` finds; `defaultTypeId` = the class of `types.Default(T)` under `types.Identical` -/
+`gencommon.FindIFaceDef(pkg, name)` finds; `defaultTypeId` = the class of `types.Default(T)` under `types.Identical`; `isNil` = the interface value is nil
+(then the other attributes mean nothing; the translated functions ask `== nil` before they use such a value) -/
 structure GType where
+  isNil : Bool
   basic : Option BasicKind
   defaultTypeId : Nat
   typesImplements : String → String → Bool
@@ -66,6 +68,8 @@ structure GTraitInstance where
   OwningValue : GValue
   value : String
   variableName : String
+  keyType : GType
+  keyValue : String
   repeatsParseKey : Bool
   deriving Inhabited
 
@@ -220,7 +224,7 @@ def validateParsableTraits_err1 : String := "Enum: %s cannot have parsableTrait 
 def validateParsableTraits (enumType : String) (traits : List GTraitDesc) : Go.M (List GTraitDesc × Option String) := do
   let mut traits := traits
   let mut parsableTraitResults : Go.KV String String := ([] : Go.KV String String)
-  let mut parsableTraitTypes : Go.KV String (List GType) := ([] : Go.KV String (List GType))
+  let mut parseKeys : Go.KV String (List GType) := ([] : Go.KV String (List GType))
   for k3 in List.range' 0 (List.length traits) do
     let mut trait : GTraitDesc := (← Go.listGet traits k3)
     if trait.Parsable then
@@ -232,12 +236,15 @@ def validateParsableTraits (enumType : String) (traits : List GTraitDesc) : Go.M
         if ok then
           if (parseTo != «instance».OwningValue.Name) then
             return (traits, (some validateParsableTraits_err1))
-          for seen in (Option.getD (Go.kvGet parsableTraitTypes «instance».value) default) do
-            if (seen.defaultTypeId == trait.«Type».defaultTypeId) then
-              trait := { trait with Traits := (← Go.listSet trait.Traits i { (← Go.listGet trait.Traits i) with repeatsParseKey := true }) }
-              traits ← Go.listSet traits k3 trait
         parsableTraitResults := Go.kvSet parsableTraitResults «instance».value «instance».OwningValue.Name
-        parsableTraitTypes := Go.kvSet parsableTraitTypes «instance».value ((Option.getD (Go.kvGet parsableTraitTypes «instance».value) default) ++ [trait.«Type»])
+        if «instance».keyType.isNil then
+          continue
+        let mut key : String := ((«instance».OwningValue.Name ++ "\x00") ++ «instance».keyValue)
+        for seen in (Option.getD (Go.kvGet parseKeys key) default) do
+          if (seen.defaultTypeId == «instance».keyType.defaultTypeId) then
+            trait := { trait with Traits := (← Go.listSet trait.Traits i { (← Go.listGet trait.Traits i) with repeatsParseKey := true }) }
+            traits ← Go.listSet traits k3 trait
+        parseKeys := Go.kvSet parseKeys key ((Option.getD (Go.kvGet parseKeys key) default) ++ [«instance».keyType])
   return (traits, none)
 
 /-- `func processDuplicates(values Values, traits TraitDescs, enumTypeName string)` -/
